@@ -224,7 +224,11 @@ Ipc::Mem::IdSet::leafTruncate(const Position pos, const size_type idsToKeep)
     Node &node = *valueAddress(pos); // no auto to simplify the asserts() below
     assert(node == std::numeric_limits<Node>::max()); // all 1s
     static_assert(std::is_unsigned<Node>::value, "right shift prepends 0s");
-    node >>= BitsPerLeaf - idsToKeep;
+    // a shift by the full width of Node would be undefined behavior
+    if (idsToKeep)
+        node >>= BitsPerLeaf - idsToKeep;
+    else
+        node = 0;
     // node can be anything here, including all 0s and all 1s
 }
 
